@@ -183,6 +183,15 @@ class Sim:
             self.exited = r["exit"]
         return r
 
+    def eintr(self):
+        """the blocked epoll_wait returns -1 / EINTR (no signal handler of the daemon ran); -> idle record of the next epoll_wait"""
+        r = self.cmd("eintr")
+        if "exit" in r:
+            self.exited = r["exit"]
+            raise DaemonExited(r["exit"])
+        self.pending = r.get("pending", self.pending)
+        return r
+
     def abortloop(self):
         r = self.cmd("abortloop")
         if "exit" in r:
